@@ -174,6 +174,7 @@ Fixpoint record_loop (fuel : nat) (cp : cparser) (d : bytes) (dataSize : Z) (buf
     | S f =>
       let! csize := rd_s 2 Big d idx in
       let idx := idx + 2 in
+      if csize <? 2 then Err EValue else          (* 'Bad VWSC record size' *)
       if csize =? 2 then
         match acc with
         | [] =>                                 (* first record: repeats the initial state *)
@@ -199,8 +200,8 @@ Definition parse_vwsc_data (d : bytes) : result (list entry) :=
   if negb (zlen d =? dataSize) then Err EValue else
   let frame_size := getv h 4 in
   let channel_count := getv h 5 in
-  if channel_count * frame_size <? 0 then Err EValue else    (* bytearray(negative) *)
   let! cp := if frame_size =? 20 then Ok D4 else if frame_size =? 24 then Ok D5 else Err EKey in
+  if channel_count * frame_size <? 0 then Err EValue else    (* bytearray(negative) *)
   (* channel_count, frame_size are 16-bit: the buffer has at most 2^30 bytes; sizes beyond the input's
      own length only occur on malformed input *)
   let buf := zeros (Z.to_nat (channel_count * frame_size)) in
